@@ -754,7 +754,7 @@ class HDF5DataFrame(DataFrame):
             readers = tuple(self._columns[k] for k in by)
             sorted_index = self._dataset.session.dataset_sort_index(readers, np.arange(len(readers[0].data), dtype=np.uint32))
 
-            sorted_by_fields_data = np.asarray([self._columns[k].data[:][sorted_index] for k in by])
+            sorted_by_fields_data = np.asarray([np.asarray(self._columns[k].data[:])[sorted_index] for k in by])
         else:
             sorted_by_fields_data = np.asarray([self._columns[k].data[:] for k in by])
 
